@@ -19,7 +19,9 @@ def tasks(tier):
     from props.mandoline_boxes import box_tasks
     from props.mandoline_parents import kernel_tasks2
     return kernel_tasks("C07", ["expand", "coords"]) + parent_tasks("C07") + box_tasks("C07", ["slice"]) + kernel_tasks2("C07", ("ortho", "paint")) + \
-        __import__("props.mandoline_parents", fromlist=["names_tasks"]).names_tasks("C07")
+        __import__("props.mandoline_parents", fromlist=["names_tasks"]).names_tasks("C07") + \
+        __import__("props.mandoline_parents", fromlist=["aux_tasks"]).aux_tasks("C07") + \
+        __import__("props.mandoline_parents", fromlist=["composition_tasks"]).composition_tasks("C07")
 
 
 def canaries(tier):
@@ -27,7 +29,9 @@ def canaries(tier):
     from props.mandoline_boxes import box_canaries
     from props.mandoline_parents import kernel_canaries2
     return kernel_canaries(["expand", "coords"]) + parent_canaries() + box_canaries(["slice"]) + kernel_canaries2() + kernel_canaries2(("paint",)) + \
-        __import__("props.mandoline_parents", fromlist=["names_canaries"]).names_canaries()
+        __import__("props.mandoline_parents", fromlist=["names_canaries"]).names_canaries() + \
+        __import__("props.mandoline_parents", fromlist=["aux_canaries"]).aux_canaries() + \
+        __import__("props.mandoline_parents", fromlist=["composition_canaries"]).composition_canaries()
 
 
 SCENARIO_TIMEOUT = 500
